@@ -32,7 +32,7 @@ def main():
             print(f"   {st:8s} {dt:6.2f}s {ob.kind:9s} {ob.name} [{ob.info.get('path','')}]{flag}")
             if st != "proved" and "-v" in sys.argv:
                 print("      ", ob.info.get("clause")); print("      ", detail[:300]); print("      TRACE", ob.info.get("trace"))
-        if c.get("mustfail"):
+        if mf:
             print("   mustfail guard:", "OK (not provable)" if any(x != "proved" for x in mf) else "ENGINE UNSOUND: wrong postcondition proved", mf)
         else:
             print("   (no mustfail guard)")
